@@ -745,3 +745,9 @@ MUTANTS += [
     dict(id="c20-revert-load-valueerror-handler", props=["C20"], file=S + "cli.py",
          old="    except (ValueError, RecursionError) as err:\n", new="    except KeyError as err:\n"),
 ]
+
+MUTANTS += [
+    # revert of F20: keywords are tried (by prefix) before function names
+    dict(id="c03-revert-keyword-prefixed-function-names-fix", props=["C03", "C05"], file=S + "lex.py",
+         old="        elif l.accept_match(RE_FUNCTION_CALL):\n", new="        elif l.accept(\"true\"):\n            l.emit(TokenType.TRUE)\n        elif l.accept(\"false\"):\n            l.emit(TokenType.FALSE)\n        elif l.accept(\"null\"):\n            l.emit(TokenType.NULL)\n        elif l.accept_match(RE_FUNCTION_CALL):\n"),
+]
